@@ -577,6 +577,8 @@ def anchor_hashes(names):
                 obj = inspect.getattr_static(obj, part) if not inspect.ismodule(obj) else getattr(obj, part)
                 obj = getattr(obj, "__func__", obj)
                 obj = getattr(obj, "fget", obj) if isinstance(obj, property) else obj
+                if type(obj).__name__ == "cached_property":      # functools.cached_property (pyflyby's cached_attribute)
+                    obj = obj.func
             obj = getattr(obj, "__wrapped__", obj)
             src = textwrap.dedent(inspect.getsource(obj))
             out[n] = hashlib.sha256(ast.dump(ast.parse(src)).encode()).hexdigest()[:16]
